@@ -193,6 +193,9 @@ func (x *Exec) oblige(id, kind string, pc, goal T, note string, pos token.Pos) *
 // ---------------------------------------------------------------- values
 
 func (x *Exec) zeroVal(t types.Type) Val {
+	if k := bigKind(t); k != "" && x.th.Mode() == "int" {
+		return x.bigZero(k)
+	}
 	if mt, ok := machineType(t); ok {
 		m := mt
 		return Leaf{T: x.th.Lit(big.NewInt(0), mt), MT: &m}
@@ -235,6 +238,9 @@ func (x *Exec) zeroVal(t types.Type) Val {
 }
 
 func (x *Exec) freshVal(hint string, t types.Type) Val {
+	if k := bigKind(t); k != "" && x.th.Mode() == "int" {
+		return x.bigFresh(hint, k)
+	}
 	if mt, ok := machineType(t); ok {
 		m := mt
 		c := x.vc.fresh(hint, x.th.Sort(mt))
@@ -434,6 +440,14 @@ func (x *Exec) store(p Ptr, nv Val) {
 // ---------------------------------------------------------------- setup
 
 func funcKey(fn *ssa.Function) string {
+	if fn.Parent() != nil {
+		// closure: Parent$N as go/ssa names it, qualified like its parent
+		pk := funcKey(fn.Parent())
+		if i := strings.LastIndex(fn.Name(), "$"); i >= 0 {
+			return pk + fn.Name()[i:]
+		}
+		return pk + "$" + fn.Name()
+	}
 	if recv := fn.Signature.Recv(); recv != nil {
 		t := recv.Type()
 		if p, ok := t.(*types.Pointer); ok {
